@@ -21,3 +21,6 @@ def add(run, tier, token=True):
     if token:
         import contracts.token as ctok
         verify_functions(run, ctok.build(lexmod), {}, {}, tier=tier)
+        # ... about the token get_lexer_token hands it: ply's next token, each exactly once, whatever the comment switches
+        import contracts.lexer as clex
+        verify_functions(run, clex.token_bookkeeping(lexmod), {}, {}, tier=tier)
